@@ -10,8 +10,12 @@ import RodbusModel.Props.C11
 #print axioms Rodbus.Client.consecutive_differ
 #print axioms Rodbus.Client.mismatch_discarded
 #print axioms Rodbus.Client.mismatch_discarded_at_deadline
+#print axioms Rodbus.Client.stale_frame_never_accepted
+#print axioms Rodbus.Client.stale_frame_never_accepted_mbap
+#print axioms Rodbus.Client.stale_garbage_fails_request
 #print axioms Rodbus.Client.idle_dropped
 #print axioms Rodbus.Client.idle_frame_no_effect
 #print axioms Rodbus.Client.fifo_reach
 #print axioms Rodbus.Client.txSeq_reach
 #print axioms Rodbus.Client.out_reach
+#print axioms Rodbus.Client.mbap_discardComplete
